@@ -589,6 +589,13 @@ def minimise(v, modspec):
 
 
 def replay(payload):
+    if payload.get("family") == "E3b":
+        from . import e3_async
+        return e3_async.replay(payload)
+    return _replay_histories(payload)
+
+
+def _replay_histories(payload):
     core.stage()
     name = payload["module"] + "_replay"
     src = payload["src"]
@@ -661,15 +668,41 @@ def check(tier):
                 "optional send/throw/close, await of scripted awaitables, try/except/else/finally around suspension points, loops, with, return values, probes) "
                 "x seeded operation histories of length <= 8 (next, send, throw of 9 exception forms, close, gi_running, abandon = del + gc.collect; asend/athrow/aclose "
                 "driven step by step; asyncgen finalizer hook) x fault plans (probe raises inside the body, re-entrant resume from inside the body). "
-                "model = same source and history under CPython. non-trivial = history of >= 2 ops containing throw/close/abandon; distinct = (module, history) digest")
+                "model = same source and history under CPython. non-trivial = history of >= 2 ops containing throw/close/abandon; distinct = (module, history) digest. "
+                "Second part (E3b): generated coroutine/async-generator modules run by the real asyncio Task machinery on a virtual-time loop under seeded schedules "
+                "(cancel the root task at virtual time t, up to 3 times; probe raises / self-cancels) with wait_for, asyncio.timeout, gather, shield, child tasks, async with/for, "
+                "awaits inside except CancelledError and finally; trace with virtual timestamps and final outcome must equal CPython's under the same loop and schedule")
     rep.components = {"real": ["generated C for generators/coroutines/async generators", "Cython/Utility/Coroutine.c", "Cython/Utility/AsyncGen.c", "CPython 3.12 runtime"],
-                      "stub": ["delegation targets and awaitables (simseam.It / pygen / Aw)", "driver loop instead of an event loop"]}
+                      "stub": ["delegation targets and awaitables (simseam.It / pygen / Aw)", "history part: driver loop instead of an event loop", "asyncio part: real asyncio Task/Future/timeouts/gather on a loop whose selector never blocks and whose clock is virtual"]}
     rep.assumptions = ["__cause__/__context__ of exceptions are not part of the compared trace (not listed by the statement; CPython attaches implementation-specific context when throwing into a finished generator)",
                        "message text of builtin exceptions is not compared, only the type", "CPython 3.12.1 is the reference"]
     rep.quarantined = ["F6: the body grammar emits no break/continue/return lexically inside a finally clause (no_jump_out_of_finally)", "F5: throw(StopIteration) is skipped (in model and SUT alike) when the model object is un-started or delegating to an object without throw(); counted in probes.quarantined_F5_throws"]
     budget = core.env_budget(50 if tier == "quick" else 900)
-    viol, mods = explore(rep, seed, tier, "base", budget=budget)
+    viol, mods = explore(rep, seed, tier, "base", budget=budget * 0.7)
     modmap = {m["name"]: m for m in mods}
+    # E3b: the same kinds of objects under the real asyncio Task machinery on a virtual-time event loop (cancellation at seeded
+    # virtual times, wait_for / asyncio.timeout, gather, shield, async with / async for, awaits inside except/finally)
+    from . import e3_async
+    violb, modsb, cfgb = e3_async.explore(rep, PROP, seed, tier, "base", budget=budget * 0.3)
+    modmapb = {m["name"]: m for m in modsb}
+    seenb = set()
+    for i, v in violb:
+        if v["klass"] == "crash" and v.get("scenario") is None:
+            v["scenario"] = e3_async.recover_crash(seed, i, cfgb, modsb, PROP)
+            if v["scenario"] is None:
+                rep.harness_errors.append("E3b run %d crashed a worker but no single scenario reproduces it" % i)
+                continue
+        if v["klass"] in seenb:
+            continue
+        seenb.add(v["klass"])
+        v = e3_async.minimise(v, modmapb[v["module"]])
+        rep.violation("%s (asyncio run %s): %s" % (v["klass"], i, json.dumps(v["detail"])[:300]), dict(v, seed=seed, run_index=i))
+    if modsb:
+        a = dict(core.run_forked(e3_async.one_run, PROP, seed, range(6), cfgb, jobs=2))
+        b = dict(core.run_forked(e3_async.one_run, PROP, seed, range(6), cfgb, jobs=3))
+        rep.extra["determinism_selfcheck_asyncio"] = {"seeds": 6, "mismatches": sum(core.digest(a[k]) != core.digest(b[k]) for k in range(6))}
+        if rep.extra["determinism_selfcheck_asyncio"]["mismatches"]:
+            rep.harness_errors.append("determinism self-check of the asyncio sub-engine failed")
     core.replay_known(PROP, replay, rep)
     # determinism self-check: same runs twice, in separate forks
     if mods:
@@ -694,5 +727,5 @@ def check(tier):
         seen.add(key)
         v = minimise(v, modmap[v["module"]])
         rep.violation("%s (run %s): %s" % (v["klass"], i, json.dumps(v["detail"])[:300]), dict(v, seed=seed, run_index=i))
-    rep.extra["clock"] = "none in this tier (driver loop; no timers)"
+    rep.extra["clock"] = "history part: none (driver loop); asyncio part: virtual time owned by simasync.VirtualLoop (sleeps/timeouts of 0-2 s, watchdog at 60 s, all simulated)"
     return rep.finish()
